@@ -233,10 +233,25 @@ Fixpoint effects_ok (tr : list (op * ev)) (final : list info) : bool :=
        end) && effects_ok t final
   | _ :: t => effects_ok t final
   end.
-Definition C20_oracle_ok (c : Rdr_case) : bool :=
+(* "grouped by instance": the samples of one instance are consecutive in a collection *)
+Fixpoint grouped_from (seen : list Z) (cur : Z) (l : list info) : bool :=
+  match l with
+  | [] => true
+  | x :: t => if f_inst x =? cur then grouped_from seen cur t
+              else negb (memZ (f_inst x) seen) && grouped_from (cur :: seen) (f_inst x) t
+  end.
+Definition grouped (l : list info) : bool :=
+  match l with [] => true | x :: t => grouped_from [] (f_inst x) t end.
+Definition C20_core_ok (c : Rdr_case) : bool :=
   forallb (fun oe => coll_op_ok (negb (q_bysrc (rc_q c))) (fst oe) (snd oe)) (trace c) &&
   effects_ok (trace c) (infos (rc_probe c)).
-Definition C20_known (c : Rdr_case) : N := 0%N.
+Definition all_grouped (c : Rdr_case) : bool :=
+  forallb (fun oe => match snd oe with EvColl _ (CollOk l) => grouped l | _ => true end) (trace c).
+Definition C20_oracle_ok (c : Rdr_case) : bool := C20_core_ok c && all_grouped c.
+(* class 1: everything else holds, but a returned collection interleaves instances
+   (storage order is returned as is; recorded finding C20-not-grouped-by-instance) *)
+Definition C20_known (c : Rdr_case) : N :=
+  if C20_core_ok c && negb (all_grouped c) then 1%N else 0%N.
 Definition C20_model_ok := Rdr_model_ok.
 
 (* ---------- C23: read/take_next_instance ---------- *)
